@@ -18,7 +18,9 @@ oracle  : after every operation -
             it is the table the participant uses;
           * running participants have pairwise distinct ethertypes;
           * running participants have pairwise distinct FMMU windows, and
-            every logical address a participant was given lies in its window.
+            every logical address a participant was given lies in its window;
+          * running participants share one mailbox lock file, the one a
+            newcomer would open (C15's cross-process clause at this level).
 bitmap  : a quarter of the cases are histories on FMMULock itself (reserve /
           release in any order, windows that share a bitmap byte): a window
           is never handed out while a live lock holds it, and a release
@@ -132,8 +134,11 @@ def run_fmmu(case):
         return state["fresh"]
 
     def bitmap():
-        with open(path, "rb") as f:
-            data = f.read()
+        try:
+            with open(path, "rb") as f:
+                data = f.read()
+        except FileNotFoundError:
+            data = b""
         return {i for i in range(len(data) * 8) if data[i // 8] >> i % 8 & 1}
 
     def fail(what):
@@ -194,6 +199,18 @@ def enumerate_cases(tier):
                        "chunks": [[first, s], [1 - first, t],
                                   [first, 100], [1 - first, 100]],
                        "crash": None}
+    # the last leaver is interrupted inside its stop (down to the release of
+    # its FMMU window), a newcomer starts and stays, the leaver finishes, a
+    # third participant starts: the two newcomers must not share a window
+    stay = dict(base, body=40)
+    for s in range(20, 30):
+        for t in range(14, 27, 2):
+            for third in ([1, 2, 3, 4, 5], [2, 1, 3, 4, 5]):
+                yield {"participants": [dict(base), dict(stay),
+                                        dict(base, win=third)],
+                       "chunks": [[0, s], [1, t], [0, 100], [1, 8],
+                                  [2, 100], [1, 100]],
+                       "crash": None}
     if tier != "thorough":
         return
     # three participants: P0 is interrupted somewhere in its stop, P1 runs t1
@@ -225,6 +242,7 @@ class World:
         self.reached_running = set()
         self.overlap = False
         self.renamed = {}
+        self.known_msg = None
         self.pin = sched.root + f"/sys/fs/bpf/{NET}/programs"
         self.lockdir = f"/run/lock/ebpf.{NET}.lock"
 
@@ -293,7 +311,41 @@ def make_connect(world):
     return connect
 
 
+EXCUSED_KINDS = ("dispatcher", "table", "mbx-file")
+
+
+def kind_of(result):
+    return ("dispatcher" if "dispatcher is attached" in result
+            else "table" if "program table" in result or "pinned" in result
+            else "mbx-file" if "mailbox lock file" in result
+            else "installing" if "installing" in result
+            else "ethertype" if "ethertype" in result
+            else "fmmu" if "FMMU" in result or "window" in result
+            else "other")
+
+
 def invariant(world):
+    """the invariants; consequences of the known teardown race for the
+    dispatcher / table / lock file are remembered, not reported at once, so
+    that the search goes on behind them (ethertypes and FMMU windows must
+    stay distinct even then)"""
+    msgs = _invariant(world)
+    for msg in msgs:
+        if kind_of(msg) in EXCUSED_KINDS \
+                and "installer-started-during-teardown" in world.facts:
+            if world.known_msg is None:
+                world.known_msg = msg
+            continue
+        return msg
+    return None
+
+
+def _invariant(world):
+    return [m for m in _invariants(world) if m]
+
+
+def _invariants(world):
+    """yield every violated invariant (several may be broken at once)"""
     s = world.s
     stopping = {q for q, st_ in world.state.items() if st_ == "stopping"}
     if stopping:
@@ -302,37 +354,61 @@ def invariant(world):
                     and world.renamed.get(p):
                 world.facts.add("installer-started-during-teardown")
     if len(world.installing) > 1:
-        return (f"participants {sorted(world.installing)} are installing the "
+        yield (f"participants {sorted(world.installing)} are installing the "
                 f"dispatcher at the same time")
     running = sorted(p for p, st_ in world.state.items() if st_ == "running")
     if not running:
-        return None
+        return
     for p in running:
         ec = world.ec[p]
         if world.attached is None:
-            return (f"participant {p} is running but no dispatcher is "
-                    f"attached to the interface")
+            yield (f"participant {p} is running but no dispatcher is "
+                   f"attached to the interface")
+            continue
         try:
             with open(world.pin) as f:
                 pinned = int(f.read())
         except FileNotFoundError:
-            return (f"participant {p} is running but the program table is "
-                    f"not pinned (unreachable for further participants)")
+            yield (f"participant {p} is running but the program table is "
+                   f"not pinned (unreachable for further participants)")
+            continue
         if pinned != world.attached[1]:
-            return (f"participant {p} is running; the pinned program table "
+            yield (f"participant {p} is running; the pinned program table "
                     f"({pinned}) is not the one of the attached dispatcher "
                     f"({world.attached[1]})")
         if ec.programs != world.attached[1]:
-            return (f"participant {p} is running with program table "
+            yield (f"participant {p} is running with program table "
                     f"{ec.programs}, the attached dispatcher uses "
                     f"{world.attached[1]}")
     eth = {}
     for p in running:
         e = world.bound.get(p)
         if e in eth:
-            return (f"participants {eth[e]} and {p} are running with the "
+            yield (f"participants {eth[e]} and {p} are running with the "
                     f"same ethertype {e:#x}")
         eth[e] = p
+    inodes = {}
+    for p in running:
+        lf = getattr(world.ec[p], "mbx_lock_file", None)
+        if lf is None:
+            continue
+        try:
+            inodes[p] = os.fstat(lf.fd).st_ino
+        except OSError:
+            continue
+    if len(set(inodes.values())) > 1:
+        yield (f"running participants use different mailbox lock files "
+                f"(inodes {inodes}): their byte locks do not exclude each "
+                f"other")
+    if inodes:
+        try:
+            cur = os.stat(s.root + f"/run/ebpf/{NET}").st_ino
+        except FileNotFoundError:
+            cur = None
+        if cur != next(iter(inodes.values())):
+            yield (f"the mailbox lock file of the running participants "
+                    f"{sorted(inodes)} is no longer the one at "
+                    f"/run/ebpf/{NET} (a newcomer would get its own)")
     wins = {}
     for p in running:
         fl = getattr(world.ec[p], "fmmu_lock_file", None)
@@ -340,14 +416,13 @@ def invariant(world):
             continue
         w = fl.base_addr >> 22
         if w in wins:
-            return (f"participants {wins[w]} and {p} are running with the "
+            yield (f"participants {wins[w]} and {p} are running with the "
                     f"same FMMU address window {w}")
         wins[w] = p
         for a in world.fmmu.get(p, []):
             if a >> 22 != w:
-                return (f"participant {p} was given logical address {a:#x} "
+                yield (f"participant {p} was given logical address {a:#x} "
                         f"outside its window {w}")
-    return None
 
 
 def run_case(case):
@@ -480,9 +555,12 @@ def run_case(case):
     for pid, out in s.done.items():
         if out.startswith("error"):
             raise HarnessError(f"participant {pid}: {out}")
+    if not result and world.known_msg:
+        result = world.known_msg
     if result:
+        kind = kind_of(result)
         return dict(ok=False, nontrivial=True, classes=sorted(set(classes)),
-                    facts=sorted(world.facts),
+                    facts=sorted(world.facts), kind=kind,
                     bucket=(re.sub(r"\d+", "N", result)[:90],
                             tuple(sorted(world.facts))),
                     what=f"{result}; operations before: {ops[-28:]}; "
@@ -507,7 +585,11 @@ KNOWN = {
     # is not atomic with respect to a new installer: root cause = a
     # participant wins the rename (onto the emptied or removed lock
     # directory) while another one is inside its stop sequence
+    # (only the consequences for dispatcher / program table / mailbox lock
+    # file are attributed to it: ethertypes and FMMU windows must be distinct
+    # even then)
     "C23-teardown-races-with-new-installer":
         lambda case, res: "installer-started-during-teardown"
-        in res.get("facts", ()),
+        in res.get("facts", ()) and res.get("kind") in (
+            "dispatcher", "table", "mbx-file"),
 }
